@@ -300,6 +300,14 @@ async def scenario(prog, deep_lists, backend='dict'):
             errors.append(f'{where}: answered {got.decode()}, the model says {want.decode()}')
         if got != b'OK' and after != before:
             errors.append(f'{where}: answered {got.decode()} but the mailboxes changed')
+        if k == 'rename' and got == b'OK':
+            # a mailbox that exists before and after under the same name, and is neither the source hierarchy nor INBOX, is
+            # the SAME mailbox: a RENAME never replaces an existing mailbox by another one (UIDVALIDITY, messages, UIDNEXT)
+            a_, b_ = op[1], op[2]
+            for n in before:
+                if n in after and n != 'INBOX' and not (n == a_ or n.startswith(a_ + DELIM)) and after[n] != before[n]:
+                    errors.append(f'{where}: the existing mailbox {n!r} was replaced by another one: {before[n]} -> {after[n]} '
+                                  f'(its messages and UIDVALIDITY are gone)')
         if got == b'OK' and want == b'OK':
             if set(after) - {'INBOX'} != model.names:
                 errors.append(f'{where}: mailboxes are {sorted(after)}, model has {sorted(model.names)}')
@@ -351,7 +359,7 @@ def bounded_names(label, backend='dict'):
         items = [((x,), True) for x in o]
         # renames of a mailbox with inferiors, incl. inferior paths that repeat the old name and sibling prefixes
         for tree in (['a', 'a/a', 'a/ab', 'ab'], ['a', 'a/b', 'a/b/a', 'a/b/c'], ['a/b', 'a/b/c', 'a/bc'],
-                     ['Sent/Sent', 'Sent/x'], ['a', 'a/é', 'a/a*b']):
+                     ['Sent/Sent', 'Sent/x'], ['a', 'a/é', 'a/a*b'], ['z/kid', 'a', 'a/kid'], ['B/b/c', 'a/b', 'a/b/c']):
             for ren in (('a', 'z'), ('a/b', 'a/z'), ('a', 'B/a'), ('Sent', 'S2'), ('INBOX', 'old'), ('a/b', 'b')):
                 items.append((tuple(('create', n) for n in tree) + (('rename',) + ren,), True))
         # the life cycle of a subscription: only SUBSCRIBE / UNSUBSCRIBE change the subscribed set (RFC 3501 6.3.6: the
